@@ -16,7 +16,7 @@ from ref import cfdp as R
 from units import cfdp_pdu as U
 
 PROPERTY = "C07"
-LEVEL = "exploration"
+LEVEL = "model_checking"  # bounded-exhaustive enumeration of executions against a reference model (DESIGN.md 1, 2.1)
 EXHAUSTIVE = True
 RULE = (
     "case = (header configuration, offset, file data, segment metadata). 256 configurations (CRC x large-file x ID width "
